@@ -1,8 +1,6 @@
 package dna
 
 import (
-	"fmt"
-
 	"gonum.org/v1/gonum/mat"
 )
 
@@ -41,35 +39,14 @@ func (m *GTRModel) InitModel(d, f, b, e, a, c, piA, piC, piG, piT float64) (err 
 		piG*m.qmatrix.At(2, 2) -
 		piT*m.qmatrix.At(3, 3)
 	m.qmatrix.Apply(func(i, j int, v float64) float64 { return v / norm }, m.qmatrix)
-	err = m.computeEigens()
+	err = m.computeEigens(piA, piC, piG, piT)
 
 	return
 }
 
-func (m *GTRModel) computeEigens() (err error) {
-	var u mat.CDense
-
-	// Compute eigen values, left and right eigenvectors of Q
-	eigen := &mat.Eigen{}
-	if ok := eigen.Factorize(m.qmatrix, mat.EigenRight); !ok {
-		err = fmt.Errorf("Problem during matrix decomposition")
-		return
-	}
-
-	val := make([]float64, 4)
-	for i, b := range eigen.Values(nil) {
-		val[i] = real(b)
-	}
-	eigen.VectorsTo(&u)
-	reigenvect := mat.NewDense(4, 4, nil)
-	leigenvect := mat.NewDense(4, 4, nil)
-	reigenvect.Apply(func(i, j int, val float64) float64 { return real(u.At(i, j)) }, reigenvect)
-	leigenvect.Inverse(reigenvect)
-
-	m.leigenvect = leigenvect
-	m.reigenvect = reigenvect
-	m.val = val
-
+func (m *GTRModel) computeEigens(piA, piC, piG, piT float64) (err error) {
+	// Eigen values, left and right eigenvectors of Q
+	m.val, m.leigenvect, m.reigenvect, err = reversibleEigens(m.qmatrix, []float64{piA, piC, piG, piT})
 	return
 }
 
